@@ -3,6 +3,7 @@
 From JV Require Import Sem Gen.
 From JV.Hand Require Import Iter Order Sys.
 From JV.Hand Require Import Names Text.
+From JV.Hand Require Import Lexopt Json Cli.
 Require Extraction.
 Require Import ExtrOcamlBasic.
 Extraction Language OCaml.
@@ -24,4 +25,5 @@ Extraction "jv.ml"
   (* Hand/Order.v *) cal_cmp cal_eq cal_partial_cmp cal_hash date_cmp date_eq date_partial_cmp date_hash hstream_eqb
   (* Hand/Sys.v *) system2jdn_model at_system_time_model sys_time_repr
   (* Hand/Names.v *) codes month_display weekday_display month_from_str weekday_from_str month_try_from_ty weekday_try_from_ty ity_lo ity_hi
-  (* Hand/Text.v *) show_date show_date_alt parse_i32 parse_u32 parse_fields parse_date.
+  (* Hand/Text.v *) show_date show_date_alt parse_i32 parse_u32 parse_fields parse_date
+  (* Hand/Cli.v (+ Lexopt.v, Json.v): the julian command *) cli_main_exec stdout_of.
